@@ -109,6 +109,20 @@ ROOTS = ["counters", "cycle", "offset", "capture", "macro", "macro2", "macro3", 
          "include", "render", "custom", "drop", "with", "undefined", "ifchanged"]
 
 
+# alternative texts for templates whose source is edited in the middle of a history
+EDITS: dict[str, list[str]] = {
+    "base": ["<<{% block a %}BASE2-a{% endblock %}#{% block b %}BASE2-b{% endblock %}>>",
+             "({% block b %}b3{% endblock %}{% block a %}a3{% endblock %}{% block c %}c3{% endblock %})"],
+    "child": ["{% extends 'base' %}{% block b %}edited-child-b {{ block.super }}{% endblock %}",
+              "{% extends 'base' %}{% block a %}A{% endblock %}{% block b %}B{{ v }}{% endblock %}"],
+    "child2": ["{% extends 'base' %}{% block a %}child2-now-overrides-a{% endblock %}"],
+    "inc": ["(edited {{ v }})"],
+    "rp": ["<{{ x }}>"],
+    "blocky": ["{% block b %}edited[{{ v }}]{% endblock %}{% block z %}z{% endblock %}"],
+    "macro2": ["{% macro later %}LATER2{% endmacro %}{% call later %}"],
+}
+
+
 def make_data(rng: random.Random) -> dict[str, Any]:
     return {"v": rng.choice(["al", "bo", 7, "Ü"]), "xs": [1, 2, 3, 4][: rng.randint(0, 4)], "formal": rng.random() < 0.5,
             "d": {"a": rng.choice(["A", 1]), "b": {"c": "C"}, "list": [1, 2], "z": None}}
@@ -176,6 +190,15 @@ class World:
     def configure(self, e: str, act: tuple) -> None:
         self.cfg[e].append(act)
         self._apply(self.envs[e], act)
+
+    def edit(self, name: str, src: str) -> None:
+        """The template's source changes (in every loader); templates held by callers that
+        were made from the old text are fetched again, as a caller would."""
+        self.sources[name] = src
+        for ld in self.loaders.values():
+            ld.templates[name] = src
+        for k in [k for k in self.tpls if k[1] == name]:
+            del self.tpls[k]
 
     def fresh_env(self, e: str):  # noqa: ANN202
         return self._env(e, self._loader([0]))
@@ -301,6 +324,9 @@ def gen_history(rng: random.Random, n: int, roots: list[str]) -> list[dict[str, 
             st = {"op": "from_string", "env": e, "tpl": name}
         elif r < 0.63:
             st = {"op": "reload", "env": e, "tpl": name, "data": data}
+        elif r < 0.66:
+            nm = rng.choice(sorted(EDITS))
+            st = {"op": "edit", "tpl": nm, "src": rng.choice(EDITS[nm])}
         elif r < 0.71:
             st = {"op": "configure", "env": e, "act": list(rng.choice(CONFIG_ACTIONS))}
         elif r < 0.85:
@@ -329,6 +355,13 @@ def run_history(ctx: Ctx, sources: dict[str, str], hist: list[dict[str, Any]], c
             w.configure(st["env"], tuple(st["act"]))
             if record:
                 ctx.count("configure_steps")
+            continue
+        if st["op"] == "edit":
+            # (a caching dict loader has no way to notice: C14's subject, not done there)
+            if not caching and st["tpl"] in w.sources:
+                w.edit(st["tpl"], st["src"])
+                if record:
+                    ctx.count("source_edits")
             continue
         t0 = c.t
         shared = do_step(w, st, fresh=False)
@@ -591,7 +624,8 @@ def xproc_history(ctx: Ctx, rng: random.Random) -> None:
                 {"noloader": True, "steps": steps, "shared": list(shared_out), "fresh": list(fresh)})
         return
     hist = gen_history(rng, rng.randint(2, 6), ROOTS)
-    hist = [s for s in hist if "fault" not in s and s["op"] != "load_fault"] or hist[:1]
+    hist = [s for s in hist if "fault" not in s and s["op"] not in ("load_fault", "edit")] or [
+        {"op": "render", "env": "A", "tpl": rng.choice(ROOTS), "data": make_data(rng), "advance": 0}]
     if hist[-1]["op"] == "configure" or "fault" in hist[-1] or hist[-1]["op"] == "load_fault":
         hist.append({"op": "render", "env": rng.choice("AB"), "tpl": rng.choice(ROOTS), "data": make_data(rng), "advance": 3600})
     caching = rng.random() < 0.5
@@ -689,7 +723,7 @@ def floors(tier: str) -> dict[str, int]:
             "schedules_explored": 500 * k, "clock_advances": 1000 * k, "configure_steps": 200 * k,
             "clock_selftest_ok": 1, "set:ops": 10, "clock_oracle_checks": 100 * k,
             "fresh_process_comparisons": 120 * k, "fresh_process_comparisons_loaderless": 30 * k,
-            "template_fingerprint_checks": 3000 * k, "static_state_checks": 5000 * k, "max:static_state_names": 25}
+            "template_fingerprint_checks": 3000 * k, "source_edits": 150 * k, "static_state_checks": 5000 * k, "max:static_state_names": 25}
 
 
 def run_shard(spec: dict[str, Any], ctx: Ctx) -> None:
